@@ -31,6 +31,7 @@ constexpr std::size_t dyn = etl::dynamic_extent;
 constexpr std::size_t MAXR = 3;
 using Arr                  = std::array<W, MAXR>;
 constexpr W IMAX           = (W)std::numeric_limits<Idx>::max();
+constexpr W kSat           = (W)(~(unsigned __int128)0 >> 1); // saturation value of the model arithmetic (never fits an index type)
 
 std::string w2s(W v)
 {
@@ -55,10 +56,21 @@ struct Model {
     std::size_t R{};
     Arr e{};
     Arr st{};
+    // the model's own arithmetic saturates (three extents near 2^63 overflow even 128 bits); a saturated model never "fits"
+    static W mul_sat(W a, W b)
+    {
+        W r = 0;
+        return __builtin_mul_overflow(a, b, &r) ? kSat : r;
+    }
+    static W add_sat(W a, W b)
+    {
+        W r = 0;
+        return __builtin_add_overflow(a, b, &r) ? kSat : r;
+    }
     W size() const
     {
         W p = 1;
-        for (std::size_t r = 0; r < R; ++r) { p *= e[r]; }
+        for (std::size_t r = 0; r < R; ++r) { p = mul_sat(p, e[r]); }
         return p;
     }
     W span() const
@@ -66,7 +78,7 @@ struct Model {
         W s = 1;
         for (std::size_t r = 0; r < R; ++r) {
             if (e[r] == 0) { return 0; }
-            s += (e[r] - 1) * st[r];
+            s = add_sat(s, mul_sat(e[r] - 1, st[r]));
         }
         return s;
     }
@@ -81,7 +93,7 @@ struct Model {
     {
         if (span() > IMAX || size() > IMAX) { return false; }
         for (std::size_t r = 0; r < R; ++r) {
-            if (st[r] > IMAX || st[r] <= 0 || e[r] > IMAX || (e[r] > 0 && e[r] * st[r] > IMAX)) { return false; }
+            if (st[r] > IMAX || st[r] <= 0 || e[r] > IMAX || (e[r] > 0 && mul_sat(e[r], st[r]) > IMAX)) { return false; }
         }
         return true;
     }
@@ -94,7 +106,7 @@ Model model_left(Arr const& e, std::size_t R)
     W s = 1;
     for (std::size_t r = 0; r < R; ++r) {
         m.st[r] = s;
-        s *= e[r];
+        s       = Model::mul_sat(s, e[r]);
     }
     return m;
 }
@@ -106,7 +118,7 @@ Model model_right(Arr const& e, std::size_t R)
     W s = 1;
     for (std::size_t r = R; r-- > 0;) {
         m.st[r] = s;
-        s *= e[r];
+        s       = Model::mul_sat(s, e[r]);
     }
     return m;
 }
